@@ -392,6 +392,65 @@ def builders(E):
     E.prove('keepalive:data', M.b_eq_goal(E, E.getattr(fr, 'data'), kd, 'kd'))
 
 
+@both_backends('c02.builders.wire', ['C02', 'C01', 'C06', 'C15', 'C16', 'C09'],
+               functions=[FB + n for n in ('to_payload_frame', 'to_request_n_frame', 'to_cancel_frame', 'to_request_channel_frame',
+                                           'to_request_stream_frame', 'to_request_response_frame', 'to_fire_and_forget_frame',
+                                           'to_metadata_push_frame', 'to_keepalive_frame', 'to_setup_frame')] + CODEC_FUNCS,
+               assumptions=ASSUME)
+def builders_wire(E):
+    """What the library itself builds is what goes on the wire: for each frame builder, the encoding of the built frame is the
+    wire format of (the arguments given, and for everything not given the protocol's neutral value: no ignore flag, no
+    follows flag, position 0, version 1.0, no resume).  Ties the defaults set by the frame constructors to the wire."""
+    which = E.path.choice(10, 'builder')
+    sid = E.input('stream_id', E.fresh_int('sid', 1, 0x7FFFFFFF))
+    n = E.input('n', E.fresh_int('n', 1, 0x7FFFFFFF))
+    p, data, md = sym_payload(E)
+    if md is not None:
+        E.assume(lift_bytes(md).len_term() < (1 << 24))          # the wire format's range for metadata (24-bit length)
+    base = dict(stream_id=sid, flags_ignore=False, metadata=md, data=data)
+    L = E.lookup
+    if which == 0:
+        c, nx = E.fresh_bool('complete'), E.fresh_bool('is_next')
+        fr, t, f = E.call(L(FB + 'to_payload_frame'), [sid, p, c, nx]), W.T_PAYLOAD, dict(base, flags_follows=False, flags_complete=c, flags_next=nx)
+    elif which == 1:
+        fr, t, f = E.call(L(FB + 'to_request_n_frame'), [sid, n]), W.T_REQUEST_N, dict(stream_id=sid, flags_ignore=False, request_n=n)
+    elif which == 2:
+        fr, t, f = E.call(L(FB + 'to_cancel_frame'), [sid]), W.T_CANCEL, dict(stream_id=sid, flags_ignore=False)
+    elif which == 3:
+        c = E.fresh_bool('complete')
+        fr = E.call(L(FB + 'to_request_channel_frame'), [], dict(stream_id=sid, payload=p, initial_request_n=n, complete=c))
+        t, f = W.T_CHANNEL, dict(base, flags_follows=False, flags_complete=c, initial_request_n=n)
+    elif which == 4:
+        fr = E.call(L(FB + 'to_request_stream_frame'), [], dict(stream_id=sid, payload=p, initial_request_n=n))
+        t, f = W.T_STREAM, dict(base, flags_follows=False, initial_request_n=n)
+    elif which == 5:
+        fr, t, f = E.call(L(FB + 'to_request_response_frame'), [sid, p]), W.T_RR, dict(base, flags_follows=False)
+    elif which == 6:
+        fr, t, f = E.call(L(FB + 'to_fire_and_forget_frame'), [sid, p]), W.T_FNF, dict(base, flags_follows=False)
+    elif which == 7:
+        mdp = E.fresh_bytes('push', 0, (1 << 24) - 1)
+        fr, t, f = E.call(L(FB + 'to_metadata_push_frame'), [mdp]), W.T_MDPUSH, dict(stream_id=0, flags_ignore=False, metadata=mdp)
+    elif which == 8:
+        kd = E.fresh_bytes('kdata')
+        fr, t, f = E.call(L(FB + 'to_keepalive_frame'), [kd]), W.T_KEEPALIVE, dict(stream_id=0, flags_ignore=False, data=kd, flags_respond=True,
+                                                                               last_received_position=0)
+    else:
+        from pyvc import aio as _aio
+        ka, ml = E.fresh_int('keep_alive_ms', 0, 0xFFFFFFFF), E.fresh_int('max_lifetime_ms', 0, 0xFFFFFFFF)
+        lease = E.fresh_bool('honor_lease')
+        de, me = E.fresh_bytes('denc', 0, 127), E.fresh_bytes('menc', 0, 127)
+        pl = p if E.path.choice(2, 'setup-payload') == 1 else None
+        fr = E.call(L(FB + 'to_setup_frame'), [pl, de, me, _aio.mk_timedelta(E, mk_int(I(ka) * 1000)), _aio.mk_timedelta(E, mk_int(I(ml) * 1000)), lease])
+        t = W.T_SETUP
+        f = dict(stream_id=0, flags_ignore=False, metadata=md if pl is not None else None, data=data if pl is not None else None,
+                 major_version=1, minor_version=0, keep_alive_milliseconds=ka, max_lifetime_milliseconds=ml, flags_lease=lease,
+                 flags_resume=False, metadata_encoding=me, data_encoding=de)
+    out = E.call(E.getattr(fr, 'serialize'), [])
+    E.cover('built-and-encoded')
+    E.prove('builders:the_built_frame_encodes_to_the_wire_format_of_its_arguments_and_neutral_defaults[%s]' % CLASSES[t],
+            M.b_eq_goal(E, out, W.ENC(t, f), 'bw'))
+
+
 # --------------------------------------------------------------------------- TransportTCP.serialize_partial
 
 @harness('c02.tcp.serialize_partial', ['C02', 'C05', 'C11'],
